@@ -67,6 +67,8 @@ type ClientSc struct {
 	// DiscoverMode: how the scripted server answers the discovery exchange: 0 conformant, 1 empty list
 	// (no common version: Dial must fail), 2 failed item (general failure)
 	DiscoverMode int `json:"discover_mode,omitempty"`
+	// Cluster: the client is created through DialClusterContext (the other connect entry point)
+	Cluster bool `json:"cluster,omitempty"`
 }
 
 // callRec is the recorded history of one call.
@@ -468,7 +470,13 @@ func (w *clientWorld) start(opts ...kmipclient.Option) {
 			o = append(o, kmipclient.EnforceVersion(kmip.V1_4))
 		}
 		o = append(o, opts...)
-		c, err := kmipclient.DialContext(context.Background(), "sim", o...)
+		var c *kmipclient.Client
+		var err error
+		if sc.Cluster {
+			c, err = kmipclient.DialClusterContext(context.Background(), []string{"sim", "sim-b"}, append(o, kmipclient.WithRetryTimeout(time.Second))...)
+		} else {
+			c, err = kmipclient.DialContext(context.Background(), "sim", o...)
+		}
 		w.client, w.dialErr = c, err
 		w.s.Eventf("dialled err=%v", err != nil)
 		ready = true
